@@ -73,3 +73,64 @@ MUTANTS = [
     (FF, "        yield tuple(map(int, values))", "        if values:\n            yield tuple(map(int, values))", [_FWR], 'breaks'),   # the empty sets are dropped
     (FF, "        yield tuple(map(int, values))", "        yield tuple(map(float, values))", [_FWR], 'breaks'),
 ]
+
+
+# =====================================================================================================================
+# the csv format at character level (contracts/formats_chars_csv.py).  Observable: Csv.loads(Csv.dumps(objects, properties, bools, object_header=h,
+# bools_as_int=a), bools_as_int=a or None) for every table of the scope of bounded/chars_mutants.py that satisfies REP -- the ROUND TRIP, not the text.
+# The row-level units formats.csv.dumpf / loadf report a different header cell as a different contract ('breaks' there): both verdicts are right.
+#
+# KNOWN FALSE ALARMS (behaviour-preserving for the round trip, refused by the units, hence NOT listed): `newline = '\n'` (an io.StringIO(newline='\n')
+# does not translate either; the units ask for the value '' that the library assumption is stated for), `dialect = csv.excel_tab` / `csv.unix_dialect`,
+# `csv.writer(file, dialect=dialect, quoting=csv.QUOTE_ALL)`, `csv.writer(file, dialect=dialect, lineterminator='\n')`, `csv.reader(file, dialect=dialect,
+# strict=True)` (each a DIFFERENT dialect that also round-trips: lemmas/TextCsv.lean models the excel dialect only), a consistent change of a cell symbol
+# in SYMBOLS (VALUES is derived from it; the units compose the row-level CONTRACTS, which state the symbols).
+FCSV, FTL = 'concepts/formats/csv_context.py', 'concepts/tools.py'
+_CLEM, _CCH, _CWR = 'lemma.csv.chars.roundtrip', 'formats.csv.Csv.dumpf.chars', 'formats.csv.Csv.loadf.written'
+_CSV = [_CLEM, _CCH, _CWR]
+
+CSV_MUTANTS = [
+    # ---- the class Csv: the buffer and the dialect
+    (FCSV, "    newline = ''\n", "    newline = None\n", _CSV, 'breaks'),                            # io.StringIO(newline=None) turns '\r' / '\r\n' into '\n' when written: a label 'x\ry' comes back as 'x\ny'
+    (FCSV, "    newline = ''\n", "    newline = '\\r\\n'\n", _CSV, 'breaks'),                        # ... turns '\n' into '\r\n': a label 'x\ny' comes back as 'x\r\ny'
+    (FCSV, "    dumps_rstrip = False\n", "    dumps_rstrip = True\n", _CSV, 'breaks'),               # no property, last object ' x ': the unquoted blank at the end of the text is stripped
+    (FCSV, "    dumps_rstrip = False\n\n", "", _CSV, 'equivalent'),                                  # Format.dumps_rstrip is None: falsy
+    (FCSV, "    dialect = csv.excel\n", "    dialect = 'excel'\n", _CSV, 'equivalent'),              # the registered name of the same dialect
+    (FCSV, "    dialect = csv.excel\n", "    dialect = None\n", _CSV, 'equivalent'),                 # no dialect: the defaults of the C module, which are the same parameters
+    # ---- how the csv module is reached
+    (FCSV, "reader = csv.reader(file, dialect=dialect)", "reader = csv.reader(file, dialect=dialect, skipinitialspace=True)", _CSV, 'breaks'),   # ' x ' comes back as 'x '
+    (FCSV, "reader = csv.reader(file, dialect=dialect)", "reader = csv.reader(file, dialect=dialect, quotechar=\"'\")", _CSV, 'breaks'),         # quoted fields keep their quotes, break at their commas
+    (FCSV, "reader = csv.reader(file, dialect=dialect)", "reader = csv.reader(file, dialect=dialect, delimiter=';')", _CSV, 'breaks'),
+    (FTL, "    writer = csv.writer(file, dialect=dialect)", "    writer = csv.writer(file, dialect=dialect, quotechar=\"'\")", [_CLEM, _CCH], 'breaks'),
+    (FTL, "    writer = csv.writer(file, dialect=dialect)", "    writer = csv.writer(file, dialect=dialect, doublequote=False)", [_CLEM, _CCH], 'breaks'),   # _csv.Error: need to escape
+    (FTL, "    writer = csv.writer(file, dialect=dialect)", "    writer = csv.writer(file, dialect=dialect, delimiter=' ')", [_CLEM, _CCH], 'breaks'),
+    (FTL, "    writer = csv.writer(file, dialect=dialect)", "    writer = csv.writer(file, dialect='excel-tab')", [_CLEM, _CCH], 'breaks'),
+    # ---- Csv.dumpf, the rows it hands to the writer read back: the first header cell is layout only (loadf drops it) ...
+    (FCSV, "header = [object_header] + list(properties)", "header = [''] + list(properties)", [_CCH], 'equivalent'),
+    (FCSV, "header = [object_header] + list(properties)", "header = ['#'] + list(properties)", [_CCH], 'equivalent'),
+    (FCSV, "header = [object_header] + list(properties)", "header = [','] + list(properties)", [_CCH], 'equivalent'),         # written as `","`
+    (FCSV, "header = [object_header] + list(properties)", "header = [None] + list(properties)", [_CCH], 'equivalent'),
+    # ... as long as the reader accepts it: REP asks for csv.field_size_limit() >= 1 only, a fixed header of 7 characters is refused below 7
+    (FCSV, "header = [object_header] + list(properties)", "header = ['objects'] + list(properties)", [_CCH], 'breaks'),
+    # ... and it has to be there, once
+    (FCSV, "header = [object_header] + list(properties)", "header = list(properties)", [_CCH], 'breaks'),                          # the first property is taken for it
+    (FCSV, "header = [object_header] + list(properties)", "header = [object_header, ''] + list(properties)", [_CCH], 'breaks'),    # a property '' more
+    (FCSV, "header = [object_header] + list(properties)", "header = [object_header] + list(objects)", [_CCH], 'breaks'),
+    (FCSV, "rows = ([o] + list(map(symbool, bs))", "rows = ([str(o)] + list(map(symbool, bs))", [_CCH], 'equivalent'),            # labels are texts
+    (FCSV, "rows = ([o] + list(map(symbool, bs))", "rows = ([o, ''] + list(map(symbool, bs))", [_CCH], 'breaks'),                 # a cell more per row
+    (FCSV, "rows = ([o] + list(map(symbool, bs))", "rows = (['', o] + list(map(symbool, bs))", [_CCH], 'breaks'),                  # the object is read as a cell
+    (FCSV, "rows = ([o] + list(map(symbool, bs))", "rows = (list(map(symbool, bs))", [_CCH], 'breaks'),
+    (FCSV, "symbool = cls.symbols[bools_as_int].__getitem__", "symbool = cls.symbols[not bools_as_int].__getitem__", [_CCH], 'breaks'),   # read with the flag given: KeyError
+    (FCSV, "for o, bs in zip(objects, bools))", "for o, bs in zip(properties, bools))", [_CCH], 'breaks'),
+    (FCSV, "tools.write_csv_file(file, rows, header=header, dialect=dialect)", "tools.write_csv_file(file, rows, header=None, dialect=dialect)", [_CCH], 'breaks'),   # the first object row is read as the header
+    # ---- Csv.loadf on the written text
+    (FCSV, "        del object_header  # TODO\n", "", [_CWR], 'equivalent'),
+    (FCSV, "object_header, *properties = next(reader)", "*properties, object_header = next(reader)", [_CWR], 'breaks'),            # the last property is dropped instead
+    (FCSV, "object_header, *properties = next(reader)", "object_header, _, *properties = next(reader)", [_CWR], 'breaks'),         # ValueError without a property, else one property less
+    (FCSV, "            _, *first_symbols = first_row\n", "            first_symbols = first_row\n", [_CWR], 'breaks'),            # an object label that is no symbol: ValueError
+    (FCSV, "            _, *first_symbols = first_row\n", "            first_symbols = first_row[1:]\n", [_CWR], 'equivalent'),
+    (FCSV, "            objects.append(obj)\n", "            objects.append(str(obj))\n", [_CWR], 'equivalent'),
+    (FCSV, "        for obj, *symbols in rows:", "        for *symbols, obj in rows:", [_CWR], 'breaks'),
+    (FCSV, "            rows = itertools.chain([first_row], reader)", "            rows = reader", [_CWR], 'breaks'),              # auto-detection eats the first object
+    (FCSV, "get_value = cls.values[bools_as_int].__getitem__", "get_value = cls.values[not bools_as_int].__getitem__", [_CWR], 'breaks'),
+]
